@@ -365,6 +365,30 @@ def check_prototype(program, rep):
     p = program.cls('Prototype')
     f = p.methods.get('__iter__')
     site = f.where
+    muts = []
+    for m in p.methods.values():
+        for n in ast.walk(m.node):
+            if isinstance(n, ast.Call) and isinstance(n.func, ast.Attribute) \
+                    and norm(n.func.value) == 'self.init_methods' \
+                    and n.func.attr in ('setdefault', 'update', 'pop',
+                                        'clear', 'popitem', '__setitem__'):
+                muts.append(n)
+            if isinstance(n, (ast.Assign, ast.AugAssign, ast.Delete)):
+                tg = n.targets if isinstance(n, (ast.Assign, ast.Delete)) \
+                    else [n.target]
+                for t in tg:
+                    if isinstance(t, ast.Subscript) and norm(t.value) == \
+                            'self.init_methods':
+                        muts.append(n)
+    rep.check(not muts, 'C19.prototype', site,
+              muts[0] if muts else 'self.init_methods is only read',
+              'iterating a prototype does not write the (class-level, '
+              'shared) init_methods mapping',
+              'iterating a prototype writes into init_methods, a class-level '
+              'dict shared by every instance and subclass: the initialiser '
+              "bound to the first instance is reused for later instances' "
+              'components', line=getattr(muts[0], 'lineno', f.node.lineno)
+              if muts else f.node.lineno)
     body = _body(f)
     scen = [(a, b) for a in (False, True) for b in (False, True)]
     results = []
